@@ -5,6 +5,11 @@
 //! whose tag is enabled; plus the type mask of every parsed csp rule vs `csp_type_mask`.
 //! Oracle: an independent Rust restatement with BTreeSets, compared as a set of comma-separated
 //! items with a duplicate check.
+//! Tag state: either installed by one `use_tags` call or reached through a HISTORY of
+//! use_tags / enable_tags / disable_tags / serialize+deserialize operations (op language of C07);
+//! the expected tag set is plain set algebra, checked after every operation together with
+//! `tag_exists` for every tag of the universe; in the Coq case of a history the tag set is computed
+//! from the operations inside the Gallina expression and selects the rules handed to `get_csp_for`.
 use adblock::filters::network::{NetworkFilter, NetworkFilterMaskHelper, NetworkMatchable};
 use adblock::regex_manager::RegexManager;
 use adblock::request::Request;
@@ -25,6 +30,23 @@ const DIRECTIVES: &[&str] = &[
 ];
 const RHOSTS: &[&str] = &["foo.com", "ads.net", "example.com", "sub.example.com"];
 const PATHS: &[&str] = &["ads", "foo", "banner", "ads/foo", "x"];
+/// Tags carried ONLY by csp rules (c1, c2: blocking csp rules and csp exceptions; x1: csp exceptions
+/// only): no plain blocking rule of any generated list has them, so `tagged_filters_all` never
+/// mentions them.
+const CSP_ONLY_TAGS: &[&str] = &["c1", "c2"];
+const CSP_EXCEPTION_ONLY_TAG: &str = "x1";
+/// Every tag a rule can carry (gen::TAGS + the csp-only ones) + tags no rule carries.
+const TAG_UNIVERSE: &[&str] = &["t1", "t2", "t3", "c1", "c2", "x1", "zz", "T1", "", "t1 ", "nope"];
+const UNKNOWN_TAGS: &[&str] = &["zz", "T1", "", "t1 ", "nope"];
+
+/// A tag for a csp rule: one of the shared tags, or one that only csp rules carry.
+fn csp_tag(r: &mut Rng, exception: bool) -> &'static str {
+    match r.below(6) {
+        0 | 1 => r.pick(CSP_ONLY_TAGS),
+        2 if exception => CSP_EXCEPTION_ONLY_TAG,
+        _ => r.pick(gen::TAGS),
+    }
+}
 
 fn csp_rule(r: &mut Rng) -> String {
     let exception = r.chance(1, 4);
@@ -48,7 +70,7 @@ fn csp_rule(r: &mut Rng) -> String {
         }
     });
     if r.chance(1, 5) {
-        opts.push(format!("tag={}", r.pick(gen::TAGS)));
+        opts.push(format!("tag={}", csp_tag(r, exception)));
     }
     if r.chance(1, 6) {
         opts.push(gen::domain_opt(r));
@@ -117,9 +139,220 @@ fn gen_url(r: &mut Rng) -> String {
     s
 }
 
+// ------------------------------------------------------------------------------ tag histories
+/// Operation language of C07 (harness/src/bin/c07.rs) plus two more reload paths.
+#[derive(Clone, Debug)]
+enum Op {
+    Use(Vec<String>),
+    Enable(Vec<String>),
+    Disable(Vec<String>),
+    /// serialize_raw() of the engine itself, deserialize() into itself: tags are kept
+    Reload,
+    /// deserialize() the bytes of an independent engine built from the same rules that had every
+    /// tag of the universe enabled: the receiver keeps ITS tags
+    ReloadOther,
+    /// serialize_raw(), deserialize() into a fresh `Engine::default()` which replaces the engine:
+    /// a fresh engine has no tag enabled
+    Fresh,
+}
+fn op_json(o: &Op) -> Value {
+    match o {
+        Op::Use(t) => json!({"use": t}),
+        Op::Enable(t) => json!({"enable": t}),
+        Op::Disable(t) => json!({"disable": t}),
+        Op::Reload => json!("reload"),
+        Op::ReloadOther => json!("reload_other"),
+        Op::Fresh => json!("fresh"),
+    }
+}
+fn op_from(v: &Value) -> Op {
+    let strs = |x: &Value| x.as_array().map(|a| a.iter().map(|s| s.as_str().unwrap_or("").to_string()).collect::<Vec<_>>()).unwrap_or_default();
+    if let Some(x) = v.get("use") {
+        Op::Use(strs(x))
+    } else if let Some(x) = v.get("enable") {
+        Op::Enable(strs(x))
+    } else if let Some(x) = v.get("disable") {
+        Op::Disable(strs(x))
+    } else if v == "reload_other" {
+        Op::ReloadOther
+    } else if v == "fresh" {
+        Op::Fresh
+    } else {
+        Op::Reload
+    }
+}
+/// (code, tags) for the Gallina fold: 0 use, 1 enable, 2 disable, 3 keep, 4 reset
+fn op_coq(o: &Op) -> String {
+    match o {
+        Op::Use(t) => format!("(0, {})", cstrs(t)),
+        Op::Enable(t) => format!("(1, {})", cstrs(t)),
+        Op::Disable(t) => format!("(2, {})", cstrs(t)),
+        Op::Reload | Op::ReloadOther => "(3, [])".into(),
+        Op::Fresh => "(4, [])".into(),
+    }
+}
+fn apply(e: &mut Engine, rules: &[String], optimize: bool, o: &Op) {
+    fn refs(t: &[String]) -> Vec<&str> {
+        t.iter().map(|s| s.as_str()).collect()
+    }
+    match o {
+        Op::Use(t) => e.use_tags(&refs(t)),
+        Op::Enable(t) => e.enable_tags(&refs(t)),
+        Op::Disable(t) => e.disable_tags(&refs(t)),
+        Op::Reload => {
+            let bytes = e.serialize_raw().unwrap();
+            e.deserialize(&bytes).unwrap();
+        }
+        Op::ReloadOther => {
+            let mut other = Engine::from_rules_parametrised(rules.iter(), Default::default(), true, optimize);
+            other.use_tags(TAG_UNIVERSE);
+            let bytes = other.serialize_raw().unwrap();
+            e.deserialize(&bytes).unwrap();
+        }
+        Op::Fresh => {
+            let bytes = e.serialize_raw().unwrap();
+            let mut fresh = Engine::default();
+            fresh.deserialize(&bytes).unwrap();
+            *e = fresh;
+        }
+    }
+}
+/// The specification of the tag state: use = assign, enable = union, disable = difference.
+fn set_apply(s: &mut BTreeSet<String>, o: &Op) {
+    match o {
+        Op::Use(t) => *s = t.iter().cloned().collect(),
+        Op::Enable(t) => s.extend(t.iter().cloned()),
+        Op::Disable(t) => {
+            for x in t {
+                s.remove(x);
+            }
+        }
+        Op::Reload | Op::ReloadOther => {}
+        Op::Fresh => s.clear(),
+    }
+}
+
+/// A tag list for one call: a mixture of currently enabled tags, tags of the universe that are not
+/// enabled, tags no rule carries, with repetitions.
+fn gen_tag_list(r: &mut Rng, cur: &BTreeSet<String>) -> Vec<String> {
+    let enabled: Vec<&String> = cur.iter().collect();
+    let n = r.range(0, 4);
+    let mut v: Vec<String> = vec![];
+    for _ in 0..n {
+        let t = match r.below(8) {
+            0 | 1 if !enabled.is_empty() => enabled[r.below(enabled.len())].clone(),
+            2 => r.pick(UNKNOWN_TAGS).to_string(),
+            3 | 4 => r.pick(CSP_ONLY_TAGS).to_string(),
+            5 if r.chance(1, 2) => CSP_EXCEPTION_ONLY_TAG.to_string(),
+            6 if !v.is_empty() => v[r.below(v.len())].clone(), // repeated tag
+            _ => r.pick(gen::TAGS).to_string(),
+        };
+        v.push(t);
+    }
+    v
+}
+
+/// 1-8 operations; `stats` receives the names of the special shapes used.
+fn gen_history(r: &mut Rng, stats: &mut Vec<&'static str>) -> Vec<Op> {
+    let mut cur: BTreeSet<String> = BTreeSet::new();
+    let mut ops: Vec<Op> = vec![];
+    let n = r.range(1, 8);
+    for _ in 0..n {
+        let o = match r.below(16) {
+            0 | 1 | 2 => Op::Use(gen_tag_list(r, &cur)),
+            3 | 4 | 5 | 6 => Op::Enable(gen_tag_list(r, &cur)),
+            7 | 8 | 9 => Op::Disable(gen_tag_list(r, &cur)),
+            10 => {
+                // disable of everything that was enabled (shuffled, sometimes with extras / repeats)
+                let mut v: Vec<String> = cur.iter().cloned().collect();
+                for i in (1..v.len()).rev() {
+                    let j = r.below(i + 1);
+                    v.swap(i, j);
+                }
+                if r.chance(1, 3) {
+                    v.push(r.pick(UNKNOWN_TAGS).to_string());
+                }
+                if !v.is_empty() && r.chance(1, 3) {
+                    let d = v[r.below(v.len())].clone();
+                    v.push(d);
+                }
+                if !cur.is_empty() {
+                    stats.push("history_disable_all_enabled");
+                }
+                Op::Disable(v)
+            }
+            11 => {
+                // only tags that csp rules alone carry
+                let mut v: Vec<String> = CSP_ONLY_TAGS.iter().map(|s| s.to_string()).collect();
+                v.push(CSP_EXCEPTION_ONLY_TAG.to_string());
+                v.truncate(r.range(1, 3));
+                stats.push("history_call_with_csp_only_tags");
+                if r.chance(1, 3) { Op::Use(v) } else if r.chance(1, 2) { Op::Enable(v) } else { Op::Disable(v) }
+            }
+            12 => Op::Reload,
+            13 => Op::ReloadOther,
+            14 => Op::Fresh,
+            _ => Op::Enable(TAG_UNIVERSE.iter().filter(|_| r.chance(2, 3)).map(|s| s.to_string()).collect()),
+        };
+        match &o {
+            Op::Reload | Op::ReloadOther | Op::Fresh => stats.push("history_serialize_deserialize"),
+            Op::Use(t) | Op::Enable(t) | Op::Disable(t) => {
+                let set: BTreeSet<&String> = t.iter().collect();
+                if set.len() < t.len() {
+                    stats.push("history_call_with_repeated_tag");
+                }
+                let known = |x: &String| gen::TAGS.contains(&x.as_str()) || CSP_ONLY_TAGS.contains(&x.as_str()) || x == CSP_EXCEPTION_ONLY_TAG;
+                if t.iter().any(|x| cur.contains(x)) && t.iter().any(|x| !cur.contains(x) && known(x)) && t.iter().any(|x| !known(x)) {
+                    stats.push("history_call_mixing_enabled_disabled_unknown");
+                }
+            }
+        }
+        set_apply(&mut cur, &o);
+        ops.push(o);
+    }
+    ops
+}
+
+/// Rule lists for the history cases: most csp rules carry a tag (shared or csp-only) and share a
+/// pattern, so that the tag set decides the policy.
+fn gen_rules_tagged(r: &mut Rng) -> Vec<String> {
+    let host = r.pick(RHOSTS);
+    let n = r.range(2, 7);
+    let mut v: Vec<String> = vec![];
+    for _ in 0..n {
+        let exception = r.chance(1, 3);
+        let pat = if r.chance(3, 4) { format!("||{}^", host) } else { format!("||{}^", r.pick(RHOSTS)) };
+        let csp = if r.chance(1, if exception { 5 } else { 14 }) { "csp".to_string() } else { format!("csp={}", r.pick(DIRECTIVES)) };
+        let mut opts = vec![csp];
+        if r.chance(3, 4) {
+            opts.push(format!("tag={}", csp_tag(r, exception)));
+        }
+        if r.chance(1, 3) {
+            let j = r.below(opts.len());
+            opts.swap(0, j);
+        }
+        v.push(format!("{}{}${}", if exception { "@@" } else { "" }, pat, opts.join(",")));
+    }
+    if r.chance(1, 2) {
+        v.extend(gen_rules(r));
+    }
+    if r.chance(1, 2) {
+        // plain tagged blocking rules: only the shared tags
+        v.push(format!("||{}^$tag={}", host, r.pick(gen::TAGS)));
+    }
+    for i in (1..v.len()).rev() {
+        let j = r.below(i + 1);
+        v.swap(i, j);
+    }
+    v
+}
+
 struct Case {
     rules: Vec<String>,
+    /// tag state installed by one use_tags call (when `ops` is None)
     tags: Vec<String>,
+    /// tag state reached through a history of operations
+    ops: Option<Vec<Op>>,
     url: String,
     source: String,
     ty: String,
@@ -127,34 +360,68 @@ struct Case {
 }
 impl Case {
     fn json(&self) -> Value {
-        json!({"rules": self.rules, "tags": self.tags, "url": self.url, "source": self.source, "type": self.ty, "optimize": self.optimize})
+        let mut v = json!({"rules": self.rules, "tags": self.tags, "url": self.url, "source": self.source, "type": self.ty, "optimize": self.optimize});
+        if let Some(ops) = &self.ops {
+            v["ops"] = json!(ops.iter().map(op_json).collect::<Vec<_>>());
+        }
+        v
     }
     fn from_json(v: &Value) -> Case {
         let strs = |x: &Value| -> Vec<String> { x.as_array().map(|a| a.iter().map(|s| s.as_str().unwrap_or("").to_string()).collect()).unwrap_or_default() };
         Case {
             rules: strs(&v["rules"]),
             tags: strs(&v["tags"]),
+            ops: v["ops"].as_array().map(|a| a.iter().map(op_from).collect()),
             url: v["url"].as_str().unwrap_or("").to_string(),
             source: v["source"].as_str().unwrap_or("").to_string(),
             ty: v["type"].as_str().unwrap_or("").to_string(),
             optimize: v["optimize"].as_bool().unwrap_or(true),
         }
     }
+    /// The operations that install the tag state (a single use_tags when there is no history).
+    fn history(&self) -> Vec<Op> {
+        match &self.ops {
+            Some(o) => o.clone(),
+            None => vec![Op::Use(self.tags.clone())],
+        }
+    }
+}
+
+/// State observed after one operation of the history.
+struct Step {
+    set: BTreeSet<String>,                  // specification: set algebra
+    exists: Vec<bool>,                      // Engine::tag_exists for every tag of TAG_UNIVERSE
+    got: Option<String>,                    // Engine::get_csp_directives
 }
 
 struct Outcome {
     rt: String,                              // RequestType variant name
-    matching: Vec<(bool, Option<String>)>,   // per-rule scan: (is_exception, directive)
+    /// per-rule scan, tag test NOT applied: (tag, is_exception, directive) of the live csp rules
+    /// for which NetworkFilter::matches holds
+    candidates: Vec<(Option<String>, bool, Option<String>)>,
     masks: Vec<(String, u32)>,               // parsed csp rules: (line, mask)
-    got: Option<String>,                     // Engine::get_csp_directives
+    steps: Vec<Step>,                        // one per operation of the history
+}
+impl Outcome {
+    /// the candidates whose tag is in `set` (or that have none)
+    fn matching(&self, set: &BTreeSet<String>) -> Vec<(bool, Option<String>)> {
+        self.candidates.iter().filter(|(t, _, _)| t.as_ref().map(|t| set.contains(t)).unwrap_or(true)).map(|(_, e, d)| (*e, d.clone())).collect()
+    }
+    fn last(&self) -> &Step {
+        self.steps.last().unwrap()
+    }
 }
 
 fn eval(c: &Case) -> Option<Outcome> {
     let req = Request::new(&c.url, &c.source, &c.ty).ok()?;
     let mut engine = Engine::from_rules_parametrised(c.rules.iter(), Default::default(), true, c.optimize);
-    let tags: Vec<&str> = c.tags.iter().map(|s| s.as_str()).collect();
-    engine.use_tags(&tags);
-    let got = engine.get_csp_directives(&req);
+    let mut set: BTreeSet<String> = BTreeSet::new();
+    let mut steps = vec![];
+    for o in c.history() {
+        apply(&mut engine, &c.rules, c.optimize, &o);
+        set_apply(&mut set, &o);
+        steps.push(Step { set: set.clone(), exists: TAG_UNIVERSE.iter().map(|t| engine.tag_exists(t)).collect(), got: engine.get_csp_directives(&req) });
+    }
     let parsed: Vec<(String, NetworkFilter)> = c
         .rules
         .iter()
@@ -164,7 +431,7 @@ fn eval(c: &Case) -> Option<Outcome> {
         })
         .collect();
     let bad_ids: Vec<u64> = parsed.iter().filter(|(_, f)| f.is_badfilter()).map(|(_, f)| f.get_id_without_badfilter()).collect();
-    let mut matching = vec![];
+    let mut candidates = vec![];
     let mut masks = vec![];
     for (line, f) in &parsed {
         if !f.is_csp() {
@@ -175,17 +442,33 @@ fn eval(c: &Case) -> Option<Outcome> {
             continue;
         }
         let tag = adblock::verif_hooks::filter_tag(f).map(|s| s.to_string());
-        if let Some(t) = &tag {
-            if !c.tags.contains(t) {
-                continue;
-            }
-        }
         let mut rm = RegexManager::default();
         if f.matches(&req, &mut rm) {
-            matching.push((f.is_exception(), f.modifier_option.clone()));
+            candidates.push((tag, f.is_exception(), f.modifier_option.clone()));
         }
     }
-    Some(Outcome { rt: format!("{:?}", req.request_type), matching, masks, got })
+    Some(Outcome { rt: format!("{:?}", req.request_type), candidates, masks, steps })
+}
+
+/// Oracle over the whole history: after every operation `tag_exists` is the set algebra and the
+/// policy is the reference over the rules whose tag is in that set.  Returns the failures.
+fn judge(c: &Case, o: &Outcome) -> Vec<String> {
+    let mut f = vec![];
+    let hist = c.history();
+    for (i, st) in o.steps.iter().enumerate() {
+        let at = if c.ops.is_some() { format!(" after operation {} of the history ({})", i + 1, op_json(&hist[i])) } else { String::new() };
+        for (t, got) in TAG_UNIVERSE.iter().zip(st.exists.iter()) {
+            if *got != st.set.contains(*t) {
+                f.push(format!("tag_exists({:?}) = {} but the set algebra gives {} (enabled set {:?}){}", t, got, st.set.contains(*t), st.set, at));
+                break; // one report per operation
+            }
+        }
+        let want = reference(is_doc(c), &o.matching(&st.set));
+        if !agrees(&st.got, &want) {
+            f.push(format!("get_csp_directives returned {:?} but the specification gives {:?} under the enabled tags {:?}{}", st.got, want, st.set, at));
+        }
+    }
+    f
 }
 
 /// Independent statement of the property (L0), as a set; None = no policy.
@@ -232,15 +515,31 @@ fn is_doc(c: &Case) -> bool {
     !websocket && matches!(c.ty.as_str(), "document" | "main_frame" | "subdocument" | "sub_frame")
 }
 
+/// Gallina: the tag set of a history by set algebra (fold over (code, tags) pairs).
+fn coq_tag_set(ops: &[Op]) -> String {
+    format!(
+        "(fold_left (fun (s : list str) (op : N * list str) => if N.eqb (fst op) 0 then snd op else if N.eqb (fst op) 1 then List.app (snd op) s else if N.eqb (fst op) 2 then filter (fun x => negb (mem_str x (snd op))) s else if N.eqb (fst op) 3 then s else []) {} [])",
+        clist(ops, op_coq)
+    )
+}
+
 fn main() {
     let a = args();
     if let Some(p) = &a.replay {
         let v: Value = serde_json::from_str(&std::fs::read_to_string(p).unwrap()).unwrap();
         let c = Case::from_json(&v["replay"]);
         let o = eval(&c).expect("request could not be built");
-        let want = reference(is_doc(&c), &o.matching);
-        println!("request_type={} matching={:?} impl={:?} spec={:?}", o.rt, o.matching, o.got, want);
-        if !agrees(&o.got, &want) {
+        for (i, st) in o.steps.iter().enumerate() {
+            let want = reference(is_doc(&c), &o.matching(&st.set));
+            println!("step {} ({}): enabled tags (set algebra)={:?} tag_exists={:?} impl={:?} spec={:?}", i + 1, op_json(&c.history()[i]), st.set,
+                TAG_UNIVERSE.iter().zip(st.exists.iter()).filter(|(_, b)| **b).map(|(t, _)| *t).collect::<Vec<_>>(), st.got, want);
+        }
+        println!("request_type={} candidates (tag, exception, directive)={:?}", o.rt, o.candidates);
+        let fails = judge(&c, &o);
+        for f in &fails {
+            println!("FAIL: {}", f);
+        }
+        if !fails.is_empty() {
             println!("VIOLATION property=C15 replay={}", p.display());
             std::process::exit(1);
         }
@@ -249,23 +548,46 @@ fn main() {
     let mut r = Rng::new(a.seed);
     let mut cs = Cases::new(&a.out, "Generated C15_Model");
     let mut sm = Summary::default();
-    sm.rule = "random lists of 1-9 csp rules (8 fixed + 16 composed directives incl. case twins, blanket `csp`, exceptions with and without directive, tags, domain=, party, important, badfilter, duplicates and exception twins) mixed with ordinary rules, random enabled tag sets, optimised or not, x requests of all 19 type strings (half of them document/subdocument) on 4 hosts; non-trivial = document/subdocument request with at least one matching active csp rule".into();
+    sm.rule = "random lists of 1-9 csp rules (8 fixed + 16 composed directives incl. case twins, blanket `csp`, exceptions with and without directive, tags, domain=, party, important, badfilter, duplicates and exception twins) mixed with ordinary rules, optimised or not, x requests of all 19 type strings (half of them document/subdocument) on 4 hosts; the enabled tag set is installed by one use_tags call (half of the random cases) or REACHED THROUGH A HISTORY of 1-8 use_tags / enable_tags / disable_tags calls and reloads (serialize_raw + deserialize into the engine itself, of an independent engine's bytes, into a fresh Engine) over lists where most csp rules are tagged, incl. tags carried only by csp rules (c1, c2) or only by csp exceptions (x1) and by no plain blocking rule, calls mixing enabled / not-enabled / unknown tags, repeated tags, disable of everything enabled; after EVERY operation the policy is compared with the reference under the set-algebra tag set and tag_exists with that set for 11 tags; the exhaustive sweep reaches its tag state through 4 history shapes; non-trivial = document/subdocument request with at least one matching active csp rule".into();
     let n = 3000 * a.scale;
     let mut mask_seen: BTreeSet<u32> = BTreeSet::new();
     let mut all: Vec<Case> = vec![];
-    for _ in 0..n {
-        let rules = gen_rules(&mut r);
-        let url = if r.chance(1, 5) { gen::url_for(&mut r, &rules[0]) } else { gen_url(&mut r) };
+    for k in 0..n {
+        let with_history = k % 2 == 1;
+        let rules = if with_history && r.chance(3, 4) { gen_rules_tagged(&mut r) } else { gen_rules(&mut r) };
+        let url = if with_history && r.chance(1, 2) {
+            let k = r.below(rules.len());
+            gen::url_for(&mut r, &rules[k])
+        } else if r.chance(1, 5) {
+            gen::url_for(&mut r, &rules[0])
+        } else {
+            gen_url(&mut r)
+        };
         // never an empty source: "no source + domain= rule" is the C01 finding F2, not a C15 matter
         let source = if r.chance(1, 2) { format!("https://{}/page", r.pick(gen::DOMAINS)) } else { format!("https://{}/", r.pick(RHOSTS)) };
-        let ty = if r.chance(1, 2) { r.pick(&["document", "subdocument", "main_frame", "sub_frame"]) } else { gen::request_type(&mut r) };
+        let ty = if r.chance(1, 2) || (with_history && r.chance(1, 2)) { r.pick(&["document", "subdocument", "main_frame", "sub_frame"]) } else { gen::request_type(&mut r) };
         let mut tags = vec![];
-        for t in gen::TAGS {
+        for t in gen::TAGS.iter().chain(CSP_ONLY_TAGS.iter()) {
             if r.chance(1, 2) {
                 tags.push(t.to_string());
             }
         }
-        all.push(Case { rules, tags, url, source, ty: ty.to_string(), optimize: r.chance(2, 3) });
+        let ops = if with_history {
+            let mut st = vec![];
+            let ops = gen_history(&mut r, &mut st);
+            for s in st {
+                cs.stat(s);
+            }
+            let mut set = BTreeSet::new();
+            for o in &ops {
+                set_apply(&mut set, o);
+            }
+            tags = set.into_iter().collect();
+            Some(ops)
+        } else {
+            None
+        };
+        all.push(Case { rules, tags, ops, url, source, ty: ty.to_string(), optimize: r.chance(2, 3) });
     }
     // exhaustive sweep: every subset of 8 csp rules on one host x tag state x request type
     let universe = [
@@ -279,42 +601,84 @@ fn main() {
         "@@||foo.com^$csp=b,tag=t1",
     ];
     let types: &[&str] = if a.scale > 1 { &["document", "subdocument", "script", "xhr", "other"] } else { &["document", "script"] };
+    let sv = |v: &[&str]| v.iter().map(|s| s.to_string()).collect::<Vec<String>>();
     for mask in 0..256u32 {
         for tagged in [false, true] {
             for ty in types {
                 let rules: Vec<String> = universe.iter().enumerate().filter(|(i, _)| mask & (1 << i) != 0).map(|(_, l)| l.to_string()).collect();
                 let tags = if tagged { vec!["t1".to_string()] } else { vec![] };
-                all.push(Case { rules, tags, url: "https://foo.com/page".into(), source: "https://foo.com/".into(), ty: ty.to_string(), optimize: mask % 2 == 0 });
+                // the tag state {t1} / {} is reached in one of four ways
+                let ops = match (mask / 2) % 4 {
+                    0 => None,
+                    1 => Some(if tagged { vec![Op::Enable(sv(&["t1"]))] } else { vec![Op::Enable(sv(&["t1"])), Op::Disable(sv(&["t1", "t1"]))] }),
+                    2 => Some(if tagged { vec![Op::Use(sv(&["t1", "t2"])), Op::Disable(sv(&["t2", "zz"]))] } else { vec![Op::Use(sv(&["t1"])), Op::Reload, Op::Use(vec![])] }),
+                    _ => Some(if tagged { vec![Op::Enable(sv(&["t1"])), Op::Reload, Op::ReloadOther] } else { vec![Op::Use(sv(&["t1"])), Op::Fresh] }),
+                };
+                all.push(Case { rules, tags, ops, url: "https://foo.com/page".into(), source: "https://foo.com/".into(), ty: ty.to_string(), optimize: mask % 2 == 0 });
             }
         }
     }
-    sm.extra.insert("exhaustive_sweep".into(), json!(format!("all 256 subsets of {} csp rules on one host x tag t1 on/off x {} request types", universe.len(), types.len())));
+    sm.extra.insert("exhaustive_sweep".into(), json!(format!("all 256 subsets of {} csp rules on one host x tag t1 on/off (state reached by use_tags or by one of three histories) x {} request types", universe.len(), types.len())));
     for c in all {
         if !c.url.is_ascii() || c.url.contains('*') {
             cs.stat("skipped_url_outside_domain");
             continue;
         }
         let Some(o) = eval(&c) else { cs.stat("request_error"); continue };
-        let want = reference(is_doc(&c), &o.matching);
-        sm.oracle_evaluations += 1;
+        let st = o.last();
+        let matching = o.matching(&st.set);
+        sm.oracle_evaluations += o.steps.len() as u64;
         let mut desc = c.json();
         desc["request_type"] = json!(o.rt);
-        desc["matching"] = json!(o.matching);
-        desc["impl"] = json!(o.got);
-        if !agrees(&o.got, &want) {
-            sm.failure(None, &format!("get_csp_directives returned {:?} but the specification gives {:?}", o.got, want), c.json());
+        desc["matching"] = json!(matching);
+        desc["impl"] = json!(st.got);
+        if c.ops.is_some() {
+            desc["candidates"] = json!(o.candidates);
+            desc["tag_exists"] = json!(TAG_UNIVERSE.iter().zip(st.exists.iter()).filter(|(_, b)| **b).map(|(t, _)| *t).collect::<Vec<_>>());
         }
-        cs.stat(if !is_doc(&c) { "other_type" } else if o.matching.is_empty() { "doc_no_matching_rule" } else if o.got.is_some() { "doc_policy" } else { "doc_matching_no_policy" });
-        if o.matching.iter().any(|(e, d)| *e && d.is_none()) {
+        for f in judge(&c, &o) {
+            sm.failure(None, &f, c.json());
+        }
+        cs.stat(if !is_doc(&c) { "other_type" } else if matching.is_empty() { "doc_no_matching_rule" } else if st.got.is_some() { "doc_policy" } else { "doc_matching_no_policy" });
+        if matching.iter().any(|(e, d)| *e && d.is_none()) {
             cs.stat("blanket_exception_matching")
         }
-        let expr = format!(
-            "csp_agree (get_csp_for RT_{} {}) {}",
-            o.rt,
-            clist(&o.matching, |(e, d)| format!("mk_csp {} {}", cbool(*e), copt(d, |s| hxs(s)))),
-            copt(&o.got, |s| hxs(s))
-        );
-        cs.case(expr, desc, is_doc(&c) && !o.matching.is_empty());
+        let expr = if let Some(ops) = &c.ops {
+            cs.stat("history_case");
+            for _ in 0..ops.len() {
+                cs.stat("history_operations");
+            }
+            let tagged_cands: Vec<&String> = o.candidates.iter().filter_map(|(t, _, _)| t.as_ref()).collect();
+            if is_doc(&c) && !tagged_cands.is_empty() {
+                cs.stat("history_doc_with_tagged_csp_candidate");
+                // does the policy change somewhere along the history?
+                if o.steps.windows(2).any(|w| w[0].got != w[1].got) {
+                    cs.stat("history_policy_changes_along_the_way");
+                }
+                if tagged_cands.iter().any(|t| (CSP_ONLY_TAGS.contains(&t.as_str()) || *t == CSP_EXCEPTION_ONLY_TAG) && st.set.contains(*t)) {
+                    cs.stat("history_final_policy_uses_csp_only_tag");
+                }
+            }
+            // the tag set is computed from the operations inside the Gallina expression; it must
+            // explain tag_exists and select the rules the model merges
+            format!(
+                "let T := {} in list_eqb Bool.eqb (map (fun t => mem_str t T) {}) {} && csp_agree (get_csp_for RT_{} (map snd (filter (fun p => match fst p with None => true | Some t => mem_str t T end) {}))) {}",
+                coq_tag_set(ops),
+                clist(TAG_UNIVERSE, |t| hxs(t)),
+                clist(&st.exists, |b| cbool(*b).to_string()),
+                o.rt,
+                clist(&o.candidates, |(t, e, d)| format!("({}, mk_csp {} {})", copt(t, |s| hxs(s)), cbool(*e), copt(d, |s| hxs(s)))),
+                copt(&st.got, |s| hxs(s))
+            )
+        } else {
+            format!(
+                "csp_agree (get_csp_for RT_{} {}) {}",
+                o.rt,
+                clist(&matching, |(e, d)| format!("mk_csp {} {}", cbool(*e), copt(d, |s| hxs(s)))),
+                copt(&st.got, |s| hxs(s))
+            )
+        };
+        cs.case(expr, desc, is_doc(&c) && !matching.is_empty());
         for (line, m) in &o.masks {
             if mask_seen.insert(*m) {
                 cs.stat("distinct_csp_rule_masks");
